@@ -172,8 +172,11 @@ static void run_e2e(const unsigned char *in, size_t len, int ci, const size_t *c
     char head[200];
     /* every third run frames the body with the chunked transfer coding (one HTTP chunk, cut like the plain body) */
     int chunked = (n_e2e % 3) == 0;
-    int hl = chunked ? snprintf(head, sizeof head, "POST /e2e HTTP/1.1\r\nHost: h\r\nContent-Type: application/x-www-form-urlencoded\r\nTransfer-Encoding: chunked\r\n\r\n%zx\r\n", len)
-                     : snprintf(head, sizeof head, "POST /e2e HTTP/1.1\r\nHost: h\r\nContent-Type: application/x-www-form-urlencoded\r\nContent-Length: %zu\r\n\r\n", len);
+    /* the method does not matter to a form body: POST, PUT (which libhtp also reports as a file), PATCH, DELETE */
+    static const char *const methods[] = { "POST", "PUT", "POST", "PATCH", "POST", "DELETE", "POST" };
+    const char *method = methods[(n_e2e / 3) % 7];
+    int hl = chunked ? snprintf(head, sizeof head, "%s /e2e HTTP/1.1\r\nHost: h\r\nContent-Type: application/x-www-form-urlencoded\r\nTransfer-Encoding: chunked\r\n\r\n%zx\r\n", method, len)
+                     : snprintf(head, sizeof head, "%s /e2e HTTP/1.1\r\nHost: h\r\nContent-Type: application/x-www-form-urlencoded\r\nContent-Length: %zu\r\n\r\n", method, len);
     if (chunked) n_e2e_chunked++;
     htp_connp_req_data(cp, &tv, head, (size_t) hl);
     size_t prev = 0;
